@@ -128,7 +128,9 @@ func zzH_C13_partial() {
 	tok := encodeString("x")
 	x, y, z := verifNondetByte(), verifNondetByte(), verifNondetByte()
 	chunk := append([]byte("#ACT:"+tok+"\n"), x, y)
-	cut := verifNondetRange(1, len(chunk)) // the ACT line and what follows may straddle two reads
+	// the ACT line and what follows may straddle two reads; the cut is counted from the end, so that the same choice
+	// means the same place relative to the line end in the native build (whose codec token is longer)
+	cut := len(chunk) - verifNondetRange(0, len(chunk)-1)
 	r.stdinBuffer.addBuffer(chunk[:cut])
 	if cut < len(chunk) {
 		r.stdinBuffer.addBuffer(chunk[cut:])
